@@ -21,8 +21,12 @@ TEXT = {
  "C08": ("whole-library simulation of the documented protocol (announce by CAS, then wait; signal after seeing the announcement) on 1..3 single-slot channels with up to 1000 rendez-vous; oracle = sequence numbers, wake-ups never exceed signals issued, wake-ups == signals at the end, termination (signal hands the waiter over)", "5.C08"),
  "C09": ("whole-library simulation of a single-slot mailbox with p producers, c consumers and plain lock/unlock readers; oracle = consumed multiset == produced, status under the lock is the one waited for, termination", "5.C09"),
  "C14": ("whole-library simulation of 1..16 callers on 1..8 workers over 1..4 once-controls with init routines that yield, block on a mutex held by a sibling, or create and join a thread; oracle = execution counter ==1, completed flag visible to every caller right after return, late calls run nothing", "5.C14"),
+ "C10": ("whole-library simulation (ASan build for most runs): sequential histories of key create/delete/set/get over all 1024 indices incl. exhaustion, reuse and invalid keys; threads with private dictionaries over keys spread over the range, migrating between workers; 2-4 threads creating/deleting keys concurrently; oracle = dictionary per thread, live keys pairwise distinct, EINVAL/NULL for out-of-range", "5.C10"),
+ "C11": ("whole-library simulation (ASan build for most runs): threads store values under seeded key subsets that leave earlier tree branches empty, keys with/without destructors and NULL values mixed, termination by return / myth_exit from a nested frame / cancellation from another thread; oracle = multiset of (destructor function, value) calls equals the model exactly once each, no call with a foreign value or for a key without destructor, no crash", "5.C11"),
 }
 NOTE = {
+ "C10": "index arithmetic is input-driven; the simulator contributes migration and the concurrent create/delete interleavings",
+ "C11": "failure modes are input-driven (which keys hold values); destructor calls with a NULL value are tolerated; reads outside the key table are detected through their consequences",
  "C04": "EBUSY justification uses an over-approximation of 'held' (another thread between invoking lock and returning from unlock), so it cannot raise a false alarm; return value of unlock is not part of C04",
  "C05": "predicate loops everywhere (spurious wake-ups are only flagged in the scenario where the harness knows no signal was sent)",
  "C06": "N up to 33, rounds up to 20",
